@@ -1050,7 +1050,7 @@ func NewNXActionDecTTLCntIDs(controllers uint16, ids ...uint16) *NXActionDecTTLC
 		zeros:          [4]uint8{},
 		cntIDs:         ids,
 	}
-	a.Length = 16 + uint16(2*len(ids))
+	a.Length = (16 + uint16(2*len(ids)) + 7) / 8 * 8
 	return a
 }
 
